@@ -64,10 +64,10 @@ Definition idiv (a b : num) : res :=
 Definition mod_ (v1 : bool) (a b : num) : res :=
   let k := promote (nk a) (nk b) in
   (* get_operands has already turned a Decimal operand into a float when the other one is a float *)
-  let b_float := is_float (nk b) || (is_float (nk a) && is_dec (nk b)) in
-  if is_zero b && b_float then special KDbl NaN                (* returns math.nan (a plain float) *)
+  if is_zero b && (is_float (nk b) || is_float (nk a)) then special KDbl NaN   (* returns math.nan (a plain float) *)
   else if is_inf b && negb (is_inf a) && negb (is_zero a) && negb (is_nan a)
-       then (if v1 then special KDbl NaN else Val a)
+       then (if v1 then special KDbl NaN
+             else Val (mk k (nc a) (nm a) (ne a)))   (* "op1 = type(op2)(op1)": promoted to the result type *)
   else if is_nan a || is_nan b || is_inf a then special k NaN (* Python float % gives nan *)
   else if is_inf b then Val (mk k (nc a) (nm a) (ne a))        (* 0 % inf *)
   else if is_zero b then Err FOAR0001
@@ -119,6 +119,22 @@ Definition ceil_md (m d : Z) : Z := - ((- m) / d).   (* math.ceil *)
 
 (* specification side *)
 Definition round_spec (m d : Z) : Z := (2 * m + d) / (2 * d).   (* floor(x + 1/2) *)
+
+(* F&O op:numeric-mod on special values / zero divisor (XPath 2.0+): NaN if either operand is NaN, the dividend is
+   infinite or the divisor is zero (float / double after promotion); the dividend if the divisor is infinite;
+   FOAR0001 for a zero divisor on exact operands *)
+Definition mod_special_spec (a b : num) : res :=
+  let k := promote (nk a) (nk b) in
+  if is_float k then
+    if is_nan a || is_nan b || is_inf a || is_zero b then special k NaN
+    else Val (mk k (nc a) (nm a) (ne a))
+  else Err FOAR0001.
+(* F&O op:numeric-integer-divide: FOAR0001 for a zero divisor, FOAR0002 for NaN operands or an infinite dividend
+   (both apply to INF idiv 0: either code is accepted, None), 0 for a finite dividend and an infinite divisor *)
+Definition idiv_special_spec (a b : num) : option res :=
+  let bad := is_nan a || is_nan b || is_inf a in
+  if is_zero b then (if bad then None else Some (Err FOAR0001))
+  else if bad then Some (Err FOAR0002) else Some (int_val 0).
 
 (* F&O: division by zero *)
 Definition div_zero_spec (a b : num) : res :=
